@@ -31,6 +31,16 @@ func init() {
 		o := drv.ChildOpts{CPUSec: cpu, WallSec: 3000, CrashIsViol: true, CrashSigPfx: "crash:", Env: []string{"GOMAXPROCS=4"}}
 		r.RunShards(bin, "C12", 16, []string{"C12"}, o)
 
+		// The formatters as commands (several files per invocation, -w / -l / stdin).
+		wf, err1 := r.BuildGo("github.com/google/wuffs/cmd/wuffsfmt", "wuffsfmt", drv.BuildOpts{})
+		di, err2 := r.BuildGo("github.com/google/wuffs/cmd/dumbindent", "dumbindent", drv.BuildOpts{})
+		if err1 != nil || err2 != nil {
+			drv.Fatal("building the formatter commands: %v %v", err1, err2)
+		}
+		oc := o
+		oc.Env = append(append([]string{}, o.Env...), "VERIF_WUFFSFMT="+wf, "VERIF_DUMBINDENT="+di)
+		r.RunShards(bin, "C12CMD", 8, []string{"C12CMD"}, oc)
+
 		// The text family that the unfixed dumbindent cannot survive runs in
 		// children of its own, so that a killed child loses nothing else.
 		n0 := len(r.Res.Violations)
